@@ -55,7 +55,13 @@ def case_key(h, bad):
         if op == "calliter":
             return "C19:closed:kept-lines-iterator:returns-%s-instead-of-raising" % gk
         return "C19:closed:%s:%s" % (op, gk)
+    if gk == "crash":
+        return "C19:read:huge-count:process-crash"
     if step is not None:
+        if step["op"] == "read" and step["a"] in ("-1", "-5") and gk == "error":
+            return "C19:read:negative-count:raises-instead-of-reading-the-rest"
+        if step["op"] == "open" and step["a"] in ("r+b", "w+b", "a+b") and ek in ("ok", "fail") and gk == "error":
+            return "C19:open:mode-spelled-x+b-rejected"
         if step["op"] == "setvbuf" and step["a"] == "line" and gk == "error":
             return "C19:setvbuf:line-rejected"
         if step["op"] == "lines" and step["exp"][0] == "lines" and not _triggers(steps[:at]):
@@ -65,6 +71,10 @@ def case_key(h, bad):
                 return "C19:lines:line>=4096-split"
         if step["op"] in ("readline", "lines", "calliter") and rel == "trailing-CR-dropped":
             return "C19:line-read:CR-before-LF-stripped"
+        vals = bad.get("values") or bad["got"].get("values") or []
+        if (step["op"] == "readnum" and ek in ("eof", "num") and gk == "fail" and "unexpected newline" not in bad["got"].get("msg", "")) or \
+                (step["op"] == "readm" and any(f[0] == "n" for f in step.get("fs", [])) and [v["k"] for v in vals] == ["eof", "data", "num"]):
+            return "C19:read-number:failed-numeral-returns-error-triple"     # (nil, msg, 1); earlier results of the call are lost
         if step["op"] == "readm" and ek == "multi" and gk == "multi" and bad["got"]["n"] > bad["exp"]["n"]:
             return "C19:read-multi:continues-after-the-first-failing-format"
         if step["op"] == "readnum" and gk == "fail" and "unexpected newline" in bad["got"].get("msg", "") \
@@ -96,6 +106,8 @@ def _triggers(steps):
                 return "C19:lines:line>=4096-split"     # even when the pieces happen to compare equal
             if op == "calliter" and s["exp"][0] == "data" and sum(d[3] for d in s["exp"][1]) >= 4096:
                 return "C19:lines:line>=4096-split"
+        elif op == "setvbuf" and pre["pend"] and s["exp"][0] == "ok":
+            return "C19:setvbuf:pending-output-discarded"
         elif op in SEEKS:
             if pre["pend"]:
                 return "C19:seek:buffered-writes-not-flushed"
@@ -118,9 +130,42 @@ def replay_histories(hists, tag, verd, stats):
     fd = vlib.subdir("c19files")
     inp = os.path.join(sd, "hist_%s.ndjson" % tag)
     outp = os.path.join(sd, "res_%s.ndjson" % tag)
-    vlib.write_ndjson(inp, hists)
+    # histories with a huge read count could (and once did) make the real code allocate the count and die with
+    # Go's fatal out-of-memory error, which nothing can catch: they run in a child of their own that logs
+    # begin/result per history, so that a crash becomes an observation of that history
+    risky = [h for h in hists if any(s["op"] == "read" and s["a"] in HUGE for s in h["steps"])]
+    rids = set(h["id"] for h in risky)
+    safe = [h for h in hists if h["id"] not in rids]
+    vlib.write_ndjson(inp, safe)
     vlib.run_harness(["c19-run", "--in", inp, "--out", outp, "--dir", fd, "--workers", "8"], timeout=1200)
-    res = sorted(vlib.read_ndjson(open(outp).read()), key=lambda r: r["id"])   # workers finish in any order
+    res = vlib.read_ndjson(open(outp).read())
+    crashes = 0
+    while risky:
+        vlib.write_ndjson(inp, risky)
+        rc, _, err = vlib.run_harness(["c19-run", "--in", inp, "--out", outp, "--dir", fd, "--isolate"], timeout=600, check=False)
+        recs = vlib.read_ndjson(open(outp).read())
+        done = [r for r in recs if "begin" not in r]
+        res.extend(done)
+        if rc == 0:
+            break
+        begun = [r["begin"] for r in recs if "begin" in r]
+        finished = set(r["id"] for r in done)
+        if not begun or begun[-1] in finished:
+            raise vlib.Infra("c19-run --isolate failed (rc=%d) outside a history:\n%s" % (rc, err[-2000:]))
+        cul = begun[-1]
+        h = [x for x in risky if x["id"] == cul][0]
+        at = [i for i, s in enumerate(h["steps"]) if s["op"] == "read" and s["a"] in HUGE][0] + 1
+        why = ([l for l in err.splitlines() if l.startswith(("fatal error", "panic", "runtime:"))] or ["process died"])[0]
+        res.append({"id": cul, "ok": False, "n": len(h["steps"]),
+                    "bad": [{"at": at, "exp": {"k": h["steps"][at - 1]["exp"][0]}, "got": {"k": "crash", "msg": why[:200]}}]})
+        crashes += 1
+        risky = risky[[x["id"] for x in risky].index(cul) + 1:]
+        if crashes >= 3 and risky:          # enough evidence; the rest of this batch is not replayed
+            gone = set(x["id"] for x in risky)
+            hists = [x for x in hists if x["id"] not in gone]
+            stats["not_replayed_after_crashes"] = stats.get("not_replayed_after_crashes", 0) + len(gone)
+            break
+    res = sorted(res, key=lambda r: r["id"])   # workers finish in any order
     os.remove(inp)
     os.remove(outp)
     if len(res) != len(hists):
@@ -167,7 +212,7 @@ def render_lua(h, upto):
         fmts = ", ".join(str(f[1]) if f[0] == "c" else '"*%s"' % f[0] for f in s.get("fs", []))
         c = {"readm": "f:read(%s)  -- io.read(..) when f is the default input" % fmts,
              "open": "f = io.tmpfile()" if a == "tmp" else ("io.output(path) f = io.output()" if a == "out" else ("io.input(path) f = io.input()" if a == "in" else 'f = io.open(path, "%s")' % a)), "peek": 'io.open(path, "r"):read("*a")',
-             "read": "f:read(%d)" % n, "readline": 'f:read("*l")', "readall": 'f:read("*a")', "readnum": 'f:read("*n")',
+             "read": "f:read(%s)" % (a or n), "readline": 'f:read("*l")', "readall": 'f:read("*a")', "readnum": 'f:read("*n")',
              "lines": "it = f:lines() -- called %d times" % n, "write": "f:write(payload(%d, %d))" % (s["tag"], n),
              "seek": 'f:seek("%s", %d)' % (a, n), "seek0": "f:seek()", "seek1": 'f:seek("%s")' % a,
              "getiter": "it = f:lines()  -- kept", "calliter": "it()", "flush": "f:flush()",
@@ -193,8 +238,10 @@ LAYS = [["num", 4], ["num", 2], ["num", 7], ["num", 10], ["per", 37], ["per", 0]
         ["crlf", 37], ["crlf", 2], ["crlf", 4097], ["at", 4095], ["at", 4096], ["at", 4094], ["at", 100], ["at", 0]]
 COUNTS = [0, 1, 2, 3, 10, 36, 37, 100, 4000, 4095, 4096, 4097, 5000, 8192, 8193]
 OFFS = [0, 0, 0, 1, -1, 2, -2, 37, -37, 100, -100, 4095, -4095, 4096, -4096, 4097, 5000, -5000, 9000]
-MODES = ["r", "rb", "w", "wb", "a", "ab", "r+", "rb+", "w+", "wb+", "a+", "ab+"]
-UPDATE = ["r+", "w+", "a+", "rb+", "r+", "w+", "tmp", "wb+", "ab+"]
+MODES = ["r", "rb", "w", "wb", "a", "ab", "r+", "rb+", "w+", "wb+", "a+", "ab+", "r+b", "w+b", "a+b"]
+UPDATE = ["r+", "w+", "a+", "rb+", "r+", "w+", "tmp", "wb+", "ab+", "r+b", "w+b", "a+b"]
+RESTCOUNTS = ["-1", "-5", "2^31", "2^40", "1e12"]
+HUGE = ("2^31", "2^40", "1e12")
 VSIZES = [0, 0, 1, 2, 16, 100, 4096]
 
 
@@ -207,7 +254,9 @@ def rand_ops(rng, n):
     for _ in range(n):
         r = rng.random()
         cnt = rng.choice(COUNTS) if rng.random() < 0.8 else rng.randint(1, 9000)
-        if r < 0.16:
+        if r < 0.02:
+            ops.append(op("read", rng.choice(RESTCOUNTS), 0))      # negative / huge count: the rest of the file
+        elif r < 0.16:
             ops.append(op("read", "", cnt))
         elif r < 0.18:
             ops.append(op("readnum"))
@@ -291,7 +340,7 @@ def run(tier):
     slices = [("IoFileGen_modes", 4, "modes"), ("IoFileGen_rw", 4 if thorough else 3, "rw"), ("IoFileGen_lines", 4, "lines"),
               ("IoFileGen_num", 4, "num"), ("IoFileGen_iter", 6, "iter"), ("IoFileGen_buf", 5, "buf"),
               ("IoFileGen_wbuf", 5, "wbuf"), ("IoFileGen_wbuft", 7, "wbuft"),
-              ("IoFileGen_multi", 3, "multi")]
+              ("IoFileGen_multi", 3, "multi"), ("IoFileGen_svb", 6, "svb")]
     if thorough:
         slices.append(("IoFileGen_all", 3, "all"))
         slices.append(("IoFileGen_wbufa", 6, "wbufa"))
@@ -347,7 +396,8 @@ def run(tier):
                     ("iter", ["getiter", "calliter", "calliter@closed", "readline", "seek0"]),
                     ("wbuf", ["setvbuf", "read", "flush", "write", "peek"]),
                     ("wbuft", ["setvbuf", "read", "flush", "write", "seek"]),
-                    ("multi", ["readm", "readm@closed", "readall"])):
+                    ("multi", ["readm", "readm@closed", "readall"]),
+                    ("svb", ["setvbuf", "write", "peek", "close"])):
         missing += ["%s:%s" % (tag, k) for k in ks if k not in stats["bytag"].get(tag, ())]
     if missing:
         raise vlib.Infra("generated histories never exercised: %s" % missing)
@@ -362,7 +412,7 @@ def run(tier):
         "random_proposed_ops": stats["proposed_ops"], "random_legal_ops": stats["legal_ops"],
         "distinct_nontrivial": len(distinct),
         "rule": "histories = one per transition of IoFileMC's state graph (BFS, one per (state, depth), single worker) for the constant slices "
-                "modes/rw/lines/num/iter/buf/wbuf/wbuft/multi%s, plus seeded random proposals filtered by Legal; distinct by canonical hash of "
+                "modes/rw/lines/num/iter/buf/wbuf/wbuft/multi/svb%s, plus seeded random proposals filtered by Legal; distinct by canonical hash of "
                 "(initial size, layout, operation list); non-trivial = at least 3 operations" % ("/all/wbufa" if thorough else ""),
         "samples": samples, "mc_runs": mc, "exhaustive": False,
         "rejected_case_keys": dict(sorted(verd.nviol.items())),
@@ -371,10 +421,12 @@ def run(tier):
         "the oracle IoFile is checked against the reference byte-sequence model only for files of 0..5 bytes (depth 4-6); "
         "at 0..4097 bytes TLC checks its cursor/length/tiling invariants and the closed-handle guard",
         "histories obey the ISO C stream discipline stated by the property (seek/flush between read and write and between "
-        "write and read; setvbuf and second-handle reads only with nothing buffered); others are never generated",
+        "write and read; second-handle reads only with nothing buffered); setvbuf is in scope at any point and must not "
+        "lose accepted output (no visibility claim before the next flush/seek/close); others are never generated",
         "initial position of append-mode handles is treated as unknown until a seek or write",
         "the two byte generators (base pattern, write payload) are mirrored in Go (data, not semantics)",
-        "read('*n') only on unsigned decimal numerals delimited by white space (other inputs are not generated)",
+        "read('*n') only on unsigned decimal numerals delimited by white space, at end of file, or failing on a byte no "
+        "numeral can start with (other inputs are not generated)",
         "not covered: io.popen, std handles, io.lines/io.read default-file functions, OS write errors"])
     return rc
 
